@@ -46,6 +46,9 @@ pub enum Op {
     CpuReset,
     MasterReset,
     ResetRam,
+    /// the board's output ports changed through the second public door, `Bus::board_mut()`
+    BoardOut(u8, u8),
+    BoardMasterReset,
 }
 
 fn apply(b: &mut Bus, r: &mut Ref, op: Op) -> Option<String> {
@@ -116,6 +119,21 @@ fn apply(b: &mut Bus, r: &mut Ref, op: Op) -> Option<String> {
             r.ram = [0; 240];
             None
         }
+        Op::BoardOut(port, v) => {
+            if port == 1 {
+                b.board_mut().set_digital_output1(v);
+                r.board.0.set_digital_output1(v);
+            } else {
+                b.board_mut().set_digital_output2(v);
+                r.board.0.set_digital_output2(v);
+            }
+            None
+        }
+        Op::BoardMasterReset => {
+            b.board_mut().master_reset();
+            r.board.0.master_reset();
+            None
+        }
     }
 }
 
@@ -162,6 +180,8 @@ fn line(ops: &[Op]) -> String {
         Op::CpuReset => "c".to_string(),
         Op::MasterReset => "m".to_string(),
         Op::ResetRam => "z".to_string(),
+        Op::BoardOut(p, v) => format!("o{}:{:02x}", p, v),
+        Op::BoardMasterReset => "y".to_string(),
     }).collect::<Vec<_>>().join(","))
 }
 
@@ -179,6 +199,8 @@ fn parse_ops(s: &str) -> Vec<Op> {
             "c" => Op::CpuReset,
             "m" => Op::MasterReset,
             "z" => Op::ResetRam,
+            "y" => Op::BoardMasterReset,
+            "o" => { let (a, v) = rest.split_once(':').unwrap(); Op::BoardOut(h(a), h(v)) }
             _ => Op::Ai1(h(rest)),
         }
     }).collect()
@@ -372,7 +394,11 @@ pub fn run() {
                 (pi, b, r)
             })
             .collect();
-        let res = mc::par_ranges(16 * firsts.len() * starts.len(), 64, |rg| {
+        // only cloned inside the workers
+        let starts = mc::Shared(starts);
+        let starts = &starts;
+        let res = mc::par_ranges(16 * firsts.len() * starts.get().len(), 64, |rg| {
+            let starts = starts.get();
             let mut out = vec![];
             let mut n = 0u64;
             for i in rg {
@@ -443,7 +469,7 @@ pub fn run() {
         }
         alphabet.push(Op::Read(a));
     }
-    alphabet.extend([Op::CpuReset, Op::MasterReset, Op::ResetRam]);
+    alphabet.extend([Op::CpuReset, Op::MasterReset, Op::ResetRam, Op::BoardOut(1, 0xC7), Op::BoardOut(2, 0xC7), Op::BoardOut(1, 0x00), Op::BoardMasterReset]);
     for i in 0..4 {
         alphabet.push(Op::Input(i, 0x5A));
     }
